@@ -8,16 +8,15 @@ Require Import Verif.Cmds.Walk Verif.Cmds.Model.
 Local Open Scope N_scope.
 
 Definition guarded : guards :=
-  {| g_ints_target := true; g_ints_walk_once := true; g_dm_path := true; g_swagger_rest := true; g_sw_param_schema := true; g_oa3_ret_split := true; g_db_path := true;
-     g_db_writer_path := true; g_db_progress := true; g_mseq_err := true; g_mint_app := true; g_render_recover := true |}.
+  {| g_ints_target := true; g_ints_disc := d_in_progress; g_dm_path := true; g_swagger_rest := true; g_sw_param_schema := true; g_oa3_ret_split := true; g_db_path := true; g_db_writer_path := true; g_db_progress := true; g_mseq_err := true; g_mseq_disc := d_persistent; g_mint_app := true; g_mint_disc := d_persistent; g_render_recover := true; g_sd_target := true; g_sd_disc := d_in_progress; g_delta_relation := true; g_coldef_ref := true; g_coldef_auto := true; g_coldef_plain := true; g_delta_trim := false; g_db_short_done := true; g_coldef_fk_only := true; g_oa3_nested_rets := true; g_tmpl_app := true; g_rig_nilapp := true |}.
 Lemma guarded_all : all_guarded guarded = true. Proof. reflexivity. Qed.
 
 Definition ep (n w:N) (cs:list call) : endpoint := {| e_name := n; e_words := w; e_calls := cs; e_acts := []; e_pass := []; e_excl := []; e_params := []; e_rets := [] |}.
 Definition view (n:N) (acts pass:list N) : endpoint := {| e_name := n; e_words := 1; e_calls := []; e_acts := acts; e_pass := pass; e_excl := []; e_params := []; e_rets := [] |}.
 Definition cl (a e:N) : call := {| c_app := a; c_ep := e; c_alt := false |}.
 Definition ap (n:N) (es:list endpoint) (ts:list typ) : app := {| a_name := n; a_human := false; a_eps := es; a_types := ts |}.
-Definition fk (n:N) (p:list N) : field := {| f_name := n; f_ref := Some p |}.
-Definition col (n:N) : field := {| f_name := n; f_ref := None |}.
+Definition fk (n:N) (p:list N) : field := {| f_name := n; f_ref := Some p; f_auto := false |}.
+Definition col (n:N) : field := {| f_name := n; f_ref := None; f_auto := false |}.
 Definition tb (n:N) (fs:list field) : typ := {| t_name := n; t_table := true; t_fields := fs |}.
 
 (* names: apps A=1 B=2 P=9 Ghost=7 ; endpoints E=1 F=2 G=3 V=5 ; tables T=1 ; columns id=1 x=2 *)
@@ -31,6 +30,15 @@ Definition m_pass_cycle : module := [ap 1 [ep 1 1 [cl 2 2]] []; ap 2 [ep 2 1 [cl
 Definition m_short_ref : module := [ap 1 [] [tb 1 [col 1; fk 2 [8]]]].
 (* A: !table T: id <: int ; parent <: T.id *)
 Definition m_self_fk : module := [ap 1 [] [tb 1 [col 1; fk 2 [1; 1]]]].
+(* A: E: B <- F   B: F: (if c: B <- F) (else: B <- F)   P: V [passthrough=[B]]: A      - the self call written twice *)
+Definition m_pass_loop2 : module := [ap 1 [ep 1 1 [cl 2 2]] []; ap 2 [ep 2 1 [cl 2 2; cl 2 2]] []; ap 9 [view 5 [1] [2]] []].
+(* A: E: A <- E ; A <- E *)
+Definition m_self_loop2 : module := [ap 1 [ep 1 1 [cl 1 1; cl 1 1]] []].
+(* old  A: !table T: id <: int            new  A: !table T: id <: int ; tags <: set of string     !type R: x <: int *)
+Definition tyR : typ := {| t_name := 5; t_table := false; t_fields := [] |}.
+Definition m_delta_old : module := [ap 1 [] [tb 1 [col 1]]].
+Definition m_delta_new : module := [ap 1 [] [tb 1 [col 1; col 2]]].
+Definition m_delta_new_type : module := [ap 1 [] [tyR; tb 1 [col 1]]].
 (* A: E (an RPC endpoint: one word) *)
 Definition m_rpc : module := [ap 1 [ep 1 1 []] []].
 
@@ -39,20 +47,50 @@ Definition m_ref_param : module :=
   [ap 1 [{| e_name := 1; e_words := 2; e_calls := []; e_acts := []; e_pass := []; e_excl := []; e_params := [PObj; PPrim]; e_rets := [] |}] []].
 (* A: E: return ok<:Foo *)
 Definition m_ret_nospace : module :=
-  [ap 1 [{| e_name := 1; e_words := 1; e_calls := []; e_acts := []; e_pass := []; e_excl := []; e_params := []; e_rets := [false; true] |}] []].
+  [ap 1 [{| e_name := 1; e_words := 1; e_calls := []; e_acts := []; e_pass := []; e_excl := []; e_params := []; e_rets := [(false, false); (true, true)] |}] []].
 
-Definition no_ints_target := {| g_ints_target := false; g_ints_walk_once := true; g_dm_path := true; g_swagger_rest := true; g_sw_param_schema := true; g_oa3_ret_split := true; g_db_path := true; g_db_writer_path := true; g_db_progress := true; g_mseq_err := true; g_mint_app := true; g_render_recover := true |}.
-Definition no_ints_walk := {| g_ints_target := true; g_ints_walk_once := false; g_dm_path := true; g_swagger_rest := true; g_sw_param_schema := true; g_oa3_ret_split := true; g_db_path := true; g_db_writer_path := true; g_db_progress := true; g_mseq_err := true; g_mint_app := true; g_render_recover := true |}.
-Definition no_dm_path := {| g_ints_target := true; g_ints_walk_once := true; g_dm_path := false; g_swagger_rest := true; g_sw_param_schema := true; g_oa3_ret_split := true; g_db_path := true; g_db_writer_path := true; g_db_progress := true; g_mseq_err := true; g_mint_app := true; g_render_recover := true |}.
-Definition no_swagger_rest := {| g_ints_target := true; g_ints_walk_once := true; g_dm_path := true; g_swagger_rest := false; g_sw_param_schema := true; g_oa3_ret_split := true; g_db_path := true; g_db_writer_path := true; g_db_progress := true; g_mseq_err := true; g_mint_app := true; g_render_recover := true |}.
-Definition no_sw_param_schema := {| g_ints_target := true; g_ints_walk_once := true; g_dm_path := true; g_swagger_rest := true; g_sw_param_schema := false; g_oa3_ret_split := true; g_db_path := true; g_db_writer_path := true; g_db_progress := true; g_mseq_err := true; g_mint_app := true; g_render_recover := true |}.
-Definition no_oa3_ret_split := {| g_ints_target := true; g_ints_walk_once := true; g_dm_path := true; g_swagger_rest := true; g_sw_param_schema := true; g_oa3_ret_split := false; g_db_path := true; g_db_writer_path := true; g_db_progress := true; g_mseq_err := true; g_mint_app := true; g_render_recover := true |}.
-Definition no_db_path := {| g_ints_target := true; g_ints_walk_once := true; g_dm_path := true; g_swagger_rest := true; g_sw_param_schema := true; g_oa3_ret_split := true; g_db_path := false; g_db_writer_path := true; g_db_progress := true; g_mseq_err := true; g_mint_app := true; g_render_recover := true |}.
-Definition no_db_writer_path := {| g_ints_target := true; g_ints_walk_once := true; g_dm_path := true; g_swagger_rest := true; g_sw_param_schema := true; g_oa3_ret_split := true; g_db_path := true; g_db_writer_path := false; g_db_progress := true; g_mseq_err := true; g_mint_app := true; g_render_recover := true |}.
-Definition no_db_progress := {| g_ints_target := true; g_ints_walk_once := true; g_dm_path := true; g_swagger_rest := true; g_sw_param_schema := true; g_oa3_ret_split := true; g_db_path := true; g_db_writer_path := true; g_db_progress := false; g_mseq_err := true; g_mint_app := true; g_render_recover := true |}.
-Definition no_mseq_err := {| g_ints_target := true; g_ints_walk_once := true; g_dm_path := true; g_swagger_rest := true; g_sw_param_schema := true; g_oa3_ret_split := true; g_db_path := true; g_db_writer_path := true; g_db_progress := true; g_mseq_err := false; g_mint_app := true; g_render_recover := true |}.
-Definition no_mint_app := {| g_ints_target := true; g_ints_walk_once := true; g_dm_path := true; g_swagger_rest := true; g_sw_param_schema := true; g_oa3_ret_split := true; g_db_path := true; g_db_writer_path := true; g_db_progress := true; g_mseq_err := true; g_mint_app := false; g_render_recover := true |}.
-Definition no_render_recover := {| g_ints_target := true; g_ints_walk_once := true; g_dm_path := true; g_swagger_rest := true; g_sw_param_schema := true; g_oa3_ret_split := true; g_db_path := true; g_db_writer_path := true; g_db_progress := true; g_mseq_err := true; g_mint_app := true; g_render_recover := false |}.
+Definition no_ints_target : guards :=
+  {| g_ints_target := false; g_ints_disc := d_in_progress; g_dm_path := true; g_swagger_rest := true; g_sw_param_schema := true; g_oa3_ret_split := true; g_db_path := true; g_db_writer_path := true; g_db_progress := true; g_mseq_err := true; g_mseq_disc := d_persistent; g_mint_app := true; g_mint_disc := d_persistent; g_render_recover := true; g_sd_target := true; g_sd_disc := d_in_progress; g_delta_relation := true; g_coldef_ref := true; g_coldef_auto := true; g_coldef_plain := true; g_delta_trim := false; g_db_short_done := true; g_coldef_fk_only := true; g_oa3_nested_rets := true; g_tmpl_app := true; g_rig_nilapp := true |}.
+Definition no_ints_walk : guards :=
+  {| g_ints_target := true; g_ints_disc := d_untested; g_dm_path := true; g_swagger_rest := true; g_sw_param_schema := true; g_oa3_ret_split := true; g_db_path := true; g_db_writer_path := true; g_db_progress := true; g_mseq_err := true; g_mseq_disc := d_persistent; g_mint_app := true; g_mint_disc := d_persistent; g_render_recover := true; g_sd_target := true; g_sd_disc := d_in_progress; g_delta_relation := true; g_coldef_ref := true; g_coldef_auto := true; g_coldef_plain := true; g_delta_trim := false; g_db_short_done := true; g_coldef_fk_only := true; g_oa3_nested_rets := true; g_tmpl_app := true; g_rig_nilapp := true |}.
+Definition ints_cut_unmarks : guards :=
+  {| g_ints_target := true; g_ints_disc := d_cut_unmarks; g_dm_path := true; g_swagger_rest := true; g_sw_param_schema := true; g_oa3_ret_split := true; g_db_path := true; g_db_writer_path := true; g_db_progress := true; g_mseq_err := true; g_mseq_disc := d_persistent; g_mint_app := true; g_mint_disc := d_persistent; g_render_recover := true; g_sd_target := true; g_sd_disc := d_in_progress; g_delta_relation := true; g_coldef_ref := true; g_coldef_auto := true; g_coldef_plain := true; g_delta_trim := false; g_db_short_done := true; g_coldef_fk_only := true; g_oa3_nested_rets := true; g_tmpl_app := true; g_rig_nilapp := true |}.
+Definition sd_cut_unmarks : guards :=
+  {| g_ints_target := true; g_ints_disc := d_in_progress; g_dm_path := true; g_swagger_rest := true; g_sw_param_schema := true; g_oa3_ret_split := true; g_db_path := true; g_db_writer_path := true; g_db_progress := true; g_mseq_err := true; g_mseq_disc := d_persistent; g_mint_app := true; g_mint_disc := d_persistent; g_render_recover := true; g_sd_target := true; g_sd_disc := d_cut_unmarks; g_delta_relation := true; g_coldef_ref := true; g_coldef_auto := true; g_coldef_plain := true; g_delta_trim := false; g_db_short_done := true; g_coldef_fk_only := true; g_oa3_nested_rets := true; g_tmpl_app := true; g_rig_nilapp := true |}.
+Definition mseq_cut_unmarks : guards :=
+  {| g_ints_target := true; g_ints_disc := d_in_progress; g_dm_path := true; g_swagger_rest := true; g_sw_param_schema := true; g_oa3_ret_split := true; g_db_path := true; g_db_writer_path := true; g_db_progress := true; g_mseq_err := true; g_mseq_disc := d_cut_unmarks; g_mint_app := true; g_mint_disc := d_persistent; g_render_recover := true; g_sd_target := true; g_sd_disc := d_in_progress; g_delta_relation := true; g_coldef_ref := true; g_coldef_auto := true; g_coldef_plain := true; g_delta_trim := false; g_db_short_done := true; g_coldef_fk_only := true; g_oa3_nested_rets := true; g_tmpl_app := true; g_rig_nilapp := true |}.
+Definition mint_cut_unmarks : guards :=
+  {| g_ints_target := true; g_ints_disc := d_in_progress; g_dm_path := true; g_swagger_rest := true; g_sw_param_schema := true; g_oa3_ret_split := true; g_db_path := true; g_db_writer_path := true; g_db_progress := true; g_mseq_err := true; g_mseq_disc := d_persistent; g_mint_app := true; g_mint_disc := d_cut_unmarks; g_render_recover := true; g_sd_target := true; g_sd_disc := d_in_progress; g_delta_relation := true; g_coldef_ref := true; g_coldef_auto := true; g_coldef_plain := true; g_delta_trim := false; g_db_short_done := true; g_coldef_fk_only := true; g_oa3_nested_rets := true; g_tmpl_app := true; g_rig_nilapp := true |}.
+Definition no_dm_path : guards :=
+  {| g_ints_target := true; g_ints_disc := d_in_progress; g_dm_path := false; g_swagger_rest := true; g_sw_param_schema := true; g_oa3_ret_split := true; g_db_path := true; g_db_writer_path := true; g_db_progress := true; g_mseq_err := true; g_mseq_disc := d_persistent; g_mint_app := true; g_mint_disc := d_persistent; g_render_recover := true; g_sd_target := true; g_sd_disc := d_in_progress; g_delta_relation := true; g_coldef_ref := true; g_coldef_auto := true; g_coldef_plain := true; g_delta_trim := false; g_db_short_done := true; g_coldef_fk_only := true; g_oa3_nested_rets := true; g_tmpl_app := true; g_rig_nilapp := true |}.
+Definition no_swagger_rest : guards :=
+  {| g_ints_target := true; g_ints_disc := d_in_progress; g_dm_path := true; g_swagger_rest := false; g_sw_param_schema := true; g_oa3_ret_split := true; g_db_path := true; g_db_writer_path := true; g_db_progress := true; g_mseq_err := true; g_mseq_disc := d_persistent; g_mint_app := true; g_mint_disc := d_persistent; g_render_recover := true; g_sd_target := true; g_sd_disc := d_in_progress; g_delta_relation := true; g_coldef_ref := true; g_coldef_auto := true; g_coldef_plain := true; g_delta_trim := false; g_db_short_done := true; g_coldef_fk_only := true; g_oa3_nested_rets := true; g_tmpl_app := true; g_rig_nilapp := true |}.
+Definition no_sw_param_schema : guards :=
+  {| g_ints_target := true; g_ints_disc := d_in_progress; g_dm_path := true; g_swagger_rest := true; g_sw_param_schema := false; g_oa3_ret_split := true; g_db_path := true; g_db_writer_path := true; g_db_progress := true; g_mseq_err := true; g_mseq_disc := d_persistent; g_mint_app := true; g_mint_disc := d_persistent; g_render_recover := true; g_sd_target := true; g_sd_disc := d_in_progress; g_delta_relation := true; g_coldef_ref := true; g_coldef_auto := true; g_coldef_plain := true; g_delta_trim := false; g_db_short_done := true; g_coldef_fk_only := true; g_oa3_nested_rets := true; g_tmpl_app := true; g_rig_nilapp := true |}.
+Definition no_oa3_ret_split : guards :=
+  {| g_ints_target := true; g_ints_disc := d_in_progress; g_dm_path := true; g_swagger_rest := true; g_sw_param_schema := true; g_oa3_ret_split := false; g_db_path := true; g_db_writer_path := true; g_db_progress := true; g_mseq_err := true; g_mseq_disc := d_persistent; g_mint_app := true; g_mint_disc := d_persistent; g_render_recover := true; g_sd_target := true; g_sd_disc := d_in_progress; g_delta_relation := true; g_coldef_ref := true; g_coldef_auto := true; g_coldef_plain := true; g_delta_trim := false; g_db_short_done := true; g_coldef_fk_only := true; g_oa3_nested_rets := true; g_tmpl_app := true; g_rig_nilapp := true |}.
+Definition no_db_path : guards :=
+  {| g_ints_target := true; g_ints_disc := d_in_progress; g_dm_path := true; g_swagger_rest := true; g_sw_param_schema := true; g_oa3_ret_split := true; g_db_path := false; g_db_writer_path := true; g_db_progress := true; g_mseq_err := true; g_mseq_disc := d_persistent; g_mint_app := true; g_mint_disc := d_persistent; g_render_recover := true; g_sd_target := true; g_sd_disc := d_in_progress; g_delta_relation := true; g_coldef_ref := true; g_coldef_auto := true; g_coldef_plain := true; g_delta_trim := false; g_db_short_done := true; g_coldef_fk_only := true; g_oa3_nested_rets := true; g_tmpl_app := true; g_rig_nilapp := true |}.
+Definition no_db_writer_path : guards :=
+  {| g_ints_target := true; g_ints_disc := d_in_progress; g_dm_path := true; g_swagger_rest := true; g_sw_param_schema := true; g_oa3_ret_split := true; g_db_path := true; g_db_writer_path := false; g_db_progress := true; g_mseq_err := true; g_mseq_disc := d_persistent; g_mint_app := true; g_mint_disc := d_persistent; g_render_recover := true; g_sd_target := true; g_sd_disc := d_in_progress; g_delta_relation := true; g_coldef_ref := true; g_coldef_auto := true; g_coldef_plain := true; g_delta_trim := false; g_db_short_done := true; g_coldef_fk_only := true; g_oa3_nested_rets := true; g_tmpl_app := true; g_rig_nilapp := true |}.
+Definition no_db_progress : guards :=
+  {| g_ints_target := true; g_ints_disc := d_in_progress; g_dm_path := true; g_swagger_rest := true; g_sw_param_schema := true; g_oa3_ret_split := true; g_db_path := true; g_db_writer_path := true; g_db_progress := false; g_mseq_err := true; g_mseq_disc := d_persistent; g_mint_app := true; g_mint_disc := d_persistent; g_render_recover := true; g_sd_target := true; g_sd_disc := d_in_progress; g_delta_relation := true; g_coldef_ref := true; g_coldef_auto := true; g_coldef_plain := true; g_delta_trim := false; g_db_short_done := true; g_coldef_fk_only := true; g_oa3_nested_rets := true; g_tmpl_app := true; g_rig_nilapp := true |}.
+Definition no_mseq_err : guards :=
+  {| g_ints_target := true; g_ints_disc := d_in_progress; g_dm_path := true; g_swagger_rest := true; g_sw_param_schema := true; g_oa3_ret_split := true; g_db_path := true; g_db_writer_path := true; g_db_progress := true; g_mseq_err := false; g_mseq_disc := d_persistent; g_mint_app := true; g_mint_disc := d_persistent; g_render_recover := true; g_sd_target := true; g_sd_disc := d_in_progress; g_delta_relation := true; g_coldef_ref := true; g_coldef_auto := true; g_coldef_plain := true; g_delta_trim := false; g_db_short_done := true; g_coldef_fk_only := true; g_oa3_nested_rets := true; g_tmpl_app := true; g_rig_nilapp := true |}.
+Definition no_mint_app : guards :=
+  {| g_ints_target := true; g_ints_disc := d_in_progress; g_dm_path := true; g_swagger_rest := true; g_sw_param_schema := true; g_oa3_ret_split := true; g_db_path := true; g_db_writer_path := true; g_db_progress := true; g_mseq_err := true; g_mseq_disc := d_persistent; g_mint_app := false; g_mint_disc := d_persistent; g_render_recover := true; g_sd_target := true; g_sd_disc := d_in_progress; g_delta_relation := true; g_coldef_ref := true; g_coldef_auto := true; g_coldef_plain := true; g_delta_trim := false; g_db_short_done := true; g_coldef_fk_only := true; g_oa3_nested_rets := true; g_tmpl_app := true; g_rig_nilapp := true |}.
+Definition no_render_recover : guards :=
+  {| g_ints_target := true; g_ints_disc := d_in_progress; g_dm_path := true; g_swagger_rest := true; g_sw_param_schema := true; g_oa3_ret_split := true; g_db_path := true; g_db_writer_path := true; g_db_progress := true; g_mseq_err := true; g_mseq_disc := d_persistent; g_mint_app := true; g_mint_disc := d_persistent; g_render_recover := false; g_sd_target := true; g_sd_disc := d_in_progress; g_delta_relation := true; g_coldef_ref := true; g_coldef_auto := true; g_coldef_plain := true; g_delta_trim := false; g_db_short_done := true; g_coldef_fk_only := true; g_oa3_nested_rets := true; g_tmpl_app := true; g_rig_nilapp := true |}.
+Definition no_sd_target : guards :=
+  {| g_ints_target := true; g_ints_disc := d_in_progress; g_dm_path := true; g_swagger_rest := true; g_sw_param_schema := true; g_oa3_ret_split := true; g_db_path := true; g_db_writer_path := true; g_db_progress := true; g_mseq_err := true; g_mseq_disc := d_persistent; g_mint_app := true; g_mint_disc := d_persistent; g_render_recover := true; g_sd_target := false; g_sd_disc := d_in_progress; g_delta_relation := true; g_coldef_ref := true; g_coldef_auto := true; g_coldef_plain := true; g_delta_trim := false; g_db_short_done := true; g_coldef_fk_only := true; g_oa3_nested_rets := true; g_tmpl_app := true; g_rig_nilapp := true |}.
+Definition no_delta_relation : guards :=
+  {| g_ints_target := true; g_ints_disc := d_in_progress; g_dm_path := true; g_swagger_rest := true; g_sw_param_schema := true; g_oa3_ret_split := true; g_db_path := true; g_db_writer_path := true; g_db_progress := true; g_mseq_err := true; g_mseq_disc := d_persistent; g_mint_app := true; g_mint_disc := d_persistent; g_render_recover := true; g_sd_target := true; g_sd_disc := d_in_progress; g_delta_relation := false; g_coldef_ref := true; g_coldef_auto := true; g_coldef_plain := true; g_delta_trim := false; g_db_short_done := true; g_coldef_fk_only := true; g_oa3_nested_rets := true; g_tmpl_app := true; g_rig_nilapp := true |}.
+Definition no_coldef_plain : guards :=
+  {| g_ints_target := true; g_ints_disc := d_in_progress; g_dm_path := true; g_swagger_rest := true; g_sw_param_schema := true; g_oa3_ret_split := true; g_db_path := true; g_db_writer_path := true; g_db_progress := true; g_mseq_err := true; g_mseq_disc := d_persistent; g_mint_app := true; g_mint_disc := d_persistent; g_render_recover := true; g_sd_target := true; g_sd_disc := d_in_progress; g_delta_relation := true; g_coldef_ref := true; g_coldef_auto := true; g_coldef_plain := false; g_delta_trim := false; g_db_short_done := true; g_coldef_fk_only := true; g_oa3_nested_rets := true; g_tmpl_app := true; g_rig_nilapp := true |}.
+Definition no_tmpl_app : guards :=
+  {| g_ints_target := true; g_ints_disc := d_in_progress; g_dm_path := true; g_swagger_rest := true; g_sw_param_schema := true; g_oa3_ret_split := true; g_db_path := true; g_db_writer_path := true; g_db_progress := true; g_mseq_err := true; g_mseq_disc := d_persistent; g_mint_app := true; g_mint_disc := d_persistent; g_render_recover := true; g_sd_target := true; g_sd_disc := d_in_progress; g_delta_relation := true; g_coldef_ref := true; g_coldef_auto := true; g_coldef_plain := true; g_delta_trim := false; g_db_short_done := true; g_coldef_fk_only := true; g_oa3_nested_rets := true; g_tmpl_app := false; g_rig_nilapp := true |}.
+Definition no_rig_nilapp : guards :=
+  {| g_ints_target := true; g_ints_disc := d_in_progress; g_dm_path := true; g_swagger_rest := true; g_sw_param_schema := true; g_oa3_ret_split := true; g_db_path := true; g_db_writer_path := true; g_db_progress := true; g_mseq_err := true; g_mseq_disc := d_persistent; g_mint_app := true; g_mint_disc := d_persistent; g_render_recover := true; g_sd_target := true; g_sd_disc := d_in_progress; g_delta_relation := true; g_coldef_ref := true; g_coldef_auto := true; g_coldef_plain := true; g_delta_trim := false; g_db_short_done := true; g_coldef_fk_only := true; g_oa3_nested_rets := true; g_tmpl_app := true; g_rig_nilapp := false |}.
 
 Theorem ints_target_refuted : run no_ints_target m_dangling_app true (fuel_bound m_dangling_app) (CInts 9 []) = Panic SIntsTarget.
 Proof. vm_compute. reflexivity. Qed.
@@ -82,8 +120,11 @@ Example guarded_on_witnesses :
   map (fun mc => fine (run guarded (fst mc) false (fuel_bound (fst mc)) (snd mc)))
       [(m_dangling_app, CInts 9 []); (m_short_ref, CDmDirect true); (m_rpc, CSwagger None); (m_short_ref, CDbCreate [1]);
        (m_dangling_app, CMSeq 1 1); (m_dangling_ep, CMSeq 1 1); (m_dangling_app, CMInt None); (m_rpc, CMInt None);
-       (m_self_fk, CDbCreate [1]); (m_pass_cycle, CInts 9 []); (m_ref_param, CSwagger None); (m_ret_nospace, COpenapi3 (Some 1))]
-  = [true; true; true; true; true; true; true; true; true; true; true; true].
+       (m_self_fk, CDbCreate [1]); (m_pass_cycle, CInts 9 []); (m_ref_param, CSwagger None); (m_ret_nospace, COpenapi3 (Some 1));
+       (m_pass_loop2, CInts 9 []); (m_self_loop2, CSd 1 1); (m_self_loop2, CMSeq 1 1); (m_self_loop2, CMInt None); (m_dangling_app, CSd 1 1);
+       (m_delta_new, CDbDelta m_delta_old [1]); (m_delta_new_type, CDbDelta m_delta_old [1]);
+       (m_rpc, CTemplate [7] false); (m_rpc, CTemplate [] true); (m_rpc, CTestRig [1; 7])]
+  = [true; true; true; true; true; true; true; true; true; true; true; true; true; true; true; true; true; true; true; true; true; true].
 Proof. vm_compute. reflexivity. Qed.
 
 (* a self-referential foreign key: without the progress test every pass leaves the table incomplete *)
@@ -106,14 +147,117 @@ Proof.
   assert (Hi : ints no_ints_walk m_pass_cycle fuel 9 [] = ints_view no_ints_walk m_pass_cycle fuel [9] v).
   { unfold ints. change (find_app m_pass_cycle 9) with (Some (ap 9 [v] [])). cbn [a_eps ap map first_bad].
     destruct (ints_view no_ints_walk m_pass_cycle fuel [9] v); reflexivity. }
-  rewrite Hi. unfold ints_view. cbn [g_ints_walk_once no_ints_walk].
+  rewrite Hi. unfold ints_view. cbn [g_ints_disc no_ints_walk].
   set (ex := ints_expand no_ints_walk m_pass_cycle ([9] ++ e_excl v) (e_pass v) v).
   assert (Hn : ex (Some (2, 2)) = (Ok, [(Ok, Some ((2, 2), Some (2, 2)))])) by reflexivity.
   assert (Hr : ex None = (Ok, [(Ok, Some ((2, 2), Some (2, 2)))])) by reflexivity.
-  assert (L : forall f vis, fst (walk pair_eqb ex Err false false f (Some (2, 2)) vis) = OutOfFuel).
-  { induction f as [|f IH]; intros vis; [reflexivity|]. cbn [walk]. rewrite Hn. cbn [go andb].
-    specialize (IH ((2, 2) :: vis)). destruct (walk pair_eqb ex Err false false f (Some (2, 2)) ((2, 2) :: vis)) as [o v2].
+  assert (L : forall f vis, fst (walk pair_eqb ex Err d_untested f (Some (2, 2)) vis) = OutOfFuel).
+  { induction f as [|f IH]; intros vis; [reflexivity|]. cbn [walk]. rewrite Hn. cbn [go andb d_untested d_test d_mark d_unmark].
+    specialize (IH ((2, 2) :: vis)). destruct (walk pair_eqb ex Err d_untested f (Some (2, 2)) ((2, 2) :: vis)) as [o v2].
     cbn [fst] in IH. subst o. reflexivity. }
-  destruct fuel as [|f]; [reflexivity|]. cbn [walk]. rewrite Hr. cbn [go andb].
-  specialize (L f [(2, 2)]). destruct (walk pair_eqb ex Err false false f (Some (2, 2)) [(2, 2)]) as [o v2]. cbn [fst] in L. subst o. reflexivity.
+  destruct fuel as [|f]; [reflexivity|]. cbn [walk]. rewrite Hr. cbn [go andb d_untested d_test d_mark d_unmark].
+  specialize (L f [(2, 2)]). destruct (walk pair_eqb ex Err d_untested f (Some (2, 2)) [(2, 2)]) as [o v2]. cbn [fst] in L. subst o. reflexivity.
 Qed.
+
+(* ---- un-marking on a cut re-entry (Walk.d_cut_unmarks) loses termination in every generator that walks call edges:
+        an endpoint that calls itself TWICE (`if`/`else`, a retry) is enough ---- *)
+
+Theorem ints_cut_unmark_refuted : forall fuel rend, run ints_cut_unmarks m_pass_loop2 rend fuel (CInts 9 []) = OutOfFuel.
+Proof.
+  intros fuel rend. cbn [run].
+  set (v := view 5 [1] [2]).
+  assert (Hi : ints ints_cut_unmarks m_pass_loop2 fuel 9 [] = ints_view ints_cut_unmarks m_pass_loop2 fuel [9] v).
+  { unfold ints. change (find_app m_pass_loop2 9) with (Some (ap 9 [v] [])). cbn [a_eps ap map first_bad].
+    destruct (ints_view ints_cut_unmarks m_pass_loop2 fuel [9] v); reflexivity. }
+  rewrite Hi. unfold ints_view. cbn [g_ints_disc ints_cut_unmarks].
+  set (ex := ints_expand ints_cut_unmarks m_pass_loop2 ([9] ++ e_excl v) (e_pass v) v).
+  assert (Hn : ex (Some (2, 2)) = (Ok, [(Ok, Some ((2, 2), Some (2, 2))); (Ok, Some ((2, 2), Some (2, 2)))])) by reflexivity.
+  assert (Hr : ex None = (Ok, [(Ok, Some ((2, 2), Some (2, 2)))])) by reflexivity.
+  assert (L : forall f, fst (walk pair_eqb ex Err d_cut_unmarks f (Some (2, 2)) [(2, 2)]) = OutOfFuel).
+  { induction f as [|f IH]; [reflexivity|]. cbn [walk]. rewrite Hn. cbn [go d_cut_unmarks d_test d_mark d_unmark].
+    change (memk pair_eqb (2, 2) [(2, 2)]) with true. cbn [andb].
+    change (removek pair_eqb (2, 2) [(2, 2)]) with (@nil (N * N)).
+    change (memk pair_eqb (2, 2) []) with false. cbn [andb].
+    destruct (walk pair_eqb ex Err d_cut_unmarks f (Some (2, 2)) [(2, 2)]) as [o v2]. cbn [fst] in IH. subst o. reflexivity. }
+  destruct fuel as [|f]; [reflexivity|]. cbn [walk]. rewrite Hr. cbn [go d_cut_unmarks d_test d_mark d_unmark].
+  change (memk pair_eqb (2, 2) []) with false. cbn [andb].
+  specialize (L f). destruct (walk pair_eqb ex Err d_cut_unmarks f (Some (2, 2)) [(2, 2)]) as [o v2]. cbn [fst] in L. subst o. reflexivity.
+Qed.
+
+Theorem sd_cut_unmark_refuted : forall fuel rend, run sd_cut_unmarks m_self_loop2 rend fuel (CSd 1 1) = OutOfFuel.
+Proof.
+  intros fuel rend. cbn [run]. unfold sd.
+  change (find_app m_self_loop2 1) with (Some (ap 1 [ep 1 1 [cl 1 1; cl 1 1]] [])).
+  change (find_ep (ap 1 [ep 1 1 [cl 1 1; cl 1 1]] []) 1) with (Some (ep 1 1 [cl 1 1; cl 1 1])).
+  cbn [g_sd_disc sd_cut_unmarks].
+  set (ex := sd_expand sd_cut_unmarks m_self_loop2 (1, 1)).
+  assert (Hn : ex (Some (1, 1)) = (Ok, [(Ok, Some ((1, 1), Some (1, 1))); (Ok, Some ((1, 1), Some (1, 1)))])) by reflexivity.
+  assert (Hr : ex None = (Ok, [(Ok, Some ((1, 1), Some (1, 1)))])) by reflexivity.
+  assert (L : forall f, fst (walk pair_eqb ex Err d_cut_unmarks f (Some (1, 1)) [(1, 1)]) = OutOfFuel).
+  { induction f as [|f IH]; [reflexivity|]. cbn [walk]. rewrite Hn. cbn [go d_cut_unmarks d_test d_mark d_unmark].
+    change (memk pair_eqb (1, 1) [(1, 1)]) with true. cbn [andb].
+    change (removek pair_eqb (1, 1) [(1, 1)]) with (@nil (N * N)).
+    change (memk pair_eqb (1, 1) []) with false. cbn [andb].
+    destruct (walk pair_eqb ex Err d_cut_unmarks f (Some (1, 1)) [(1, 1)]) as [o v2]. cbn [fst] in IH. subst o. reflexivity. }
+  cbn [walk]. rewrite Hr. cbn [go d_cut_unmarks d_test d_mark d_unmark].
+  change (memk pair_eqb (1, 1) []) with false. cbn [andb].
+  specialize (L fuel). destruct (walk pair_eqb ex Err d_cut_unmarks fuel (Some (1, 1)) [(1, 1)]) as [o v2]. cbn [fst] in L. subst o. reflexivity.
+Qed.
+
+(* the mermaid sequence generator does not record the start endpoint: the first self call is entered, the rest is the same *)
+Theorem mseq_cut_unmark_refuted : forall fuel rend, run mseq_cut_unmarks m_self_loop2 rend fuel (CMSeq 1 1) = OutOfFuel.
+Proof.
+  intros fuel rend. cbn [run]. unfold mseq. cbn [g_mseq_disc mseq_cut_unmarks].
+  set (ex := mseq_expand m_self_loop2). set (oe := mseq_onerr mseq_cut_unmarks).
+  assert (Hn : ex (1, 1) = (Ok, [(Ok, Some ((1, 1), (1, 1))); (Ok, Some ((1, 1), (1, 1)))])) by reflexivity.
+  assert (L : forall f, fst (walk pair_eqb ex oe d_cut_unmarks f (1, 1) [(1, 1)]) = OutOfFuel).
+  { induction f as [|f IH]; [reflexivity|]. cbn [walk]. rewrite Hn. cbn [go d_cut_unmarks d_test d_mark d_unmark].
+    change (memk pair_eqb (1, 1) [(1, 1)]) with true. cbn [andb].
+    change (removek pair_eqb (1, 1) [(1, 1)]) with (@nil (N * N)).
+    change (memk pair_eqb (1, 1) []) with false. cbn [andb].
+    destruct (walk pair_eqb ex oe d_cut_unmarks f (1, 1) [(1, 1)]) as [o v2]. cbn [fst] in IH. subst o. reflexivity. }
+  assert (R : fst (walk pair_eqb ex oe d_cut_unmarks fuel (1, 1) []) = OutOfFuel).
+  { destruct fuel as [|f]; [reflexivity|]. cbn [walk]. rewrite Hn. cbn [go d_cut_unmarks d_test d_mark d_unmark].
+    change (memk pair_eqb (1, 1) []) with false. cbn [andb].
+    specialize (L f). destruct (walk pair_eqb ex oe d_cut_unmarks f (1, 1) [(1, 1)]) as [o v2]. cbn [fst] in L. subst o. reflexivity. }
+  rewrite R. reflexivity.
+Qed.
+
+Theorem sd_target_refuted : run no_sd_target m_dangling_app true (fuel_bound m_dangling_app) (CSd 1 1) = Panic SSdTarget.
+Proof. vm_compute. reflexivity. Qed.
+(* the new version holds a non-table type next to the retained table *)
+Theorem delta_relation_refuted :
+  run no_delta_relation m_delta_new_type true (fuel_bound m_delta_new_type + cmd_extra (CDbDelta m_delta_old [1])) (CDbDelta m_delta_old [1]) = Panic SDeltaRelation.
+Proof. vm_compute. reflexivity. Qed.
+(* a column writer that returns an empty definition for a set-typed column + the unguarded str[:len(str)-1] *)
+Theorem delta_trim_refuted :
+  run no_coldef_plain m_delta_new true (fuel_bound m_delta_new + cmd_extra (CDbDelta m_delta_old [1])) (CDbDelta m_delta_old [1]) = Panic SDeltaTrim.
+Proof. vm_compute. reflexivity. Qed.
+
+Theorem mint_cut_unmark_refuted : forall fuel rend, run mint_cut_unmarks m_self_loop2 rend fuel (CMInt (Some 1)) = OutOfFuel.
+Proof.
+  intros fuel rend. cbn [run]. unfold mint.
+  change (find_app m_self_loop2 1) with (Some (ap 1 [ep 1 1 [cl 1 1; cl 1 1]] [])).
+  cbn [g_mint_disc mint_cut_unmarks].
+  set (ex := mint_expand mint_cut_unmarks m_self_loop2).
+  assert (Hn : ex (Some 1) = (Ok, [(Ok, Some ((1, 1), Some 1)); (Ok, Some ((1, 1), Some 1))])) by reflexivity.
+  assert (L : forall f, fst (walk pair_eqb ex Err d_cut_unmarks f (Some 1) [(1, 1)]) = OutOfFuel).
+  { induction f as [|f IH]; [reflexivity|]. cbn [walk]. rewrite Hn. cbn [go d_cut_unmarks d_test d_mark d_unmark].
+    change (memk pair_eqb (1, 1) [(1, 1)]) with true. cbn [andb].
+    change (removek pair_eqb (1, 1) [(1, 1)]) with (@nil (N * N)).
+    change (memk pair_eqb (1, 1) []) with false. cbn [andb].
+    destruct (walk pair_eqb ex Err d_cut_unmarks f (Some 1) [(1, 1)]) as [o v2]. cbn [fst] in IH. subst o. reflexivity. }
+  assert (R : fst (walk pair_eqb ex Err d_cut_unmarks fuel (Some 1) []) = OutOfFuel).
+  { destruct fuel as [|f]; [reflexivity|]. cbn [walk]. rewrite Hn. cbn [go d_cut_unmarks d_test d_mark d_unmark].
+    change (memk pair_eqb (1, 1) []) with false. cbn [andb].
+    specialize (L f). destruct (walk pair_eqb ex Err d_cut_unmarks f (Some 1) [(1, 1)]) as [o v2]. cbn [fst] in L. subst o. reflexivity. }
+  rewrite R. reflexivity.
+Qed.
+
+(* template with an --app-name the model does not define, and with no --app-name at all; test-rig with a service that
+   names no application *)
+Theorem template_app_refuted : run no_tmpl_app m_rpc true (fuel_bound m_rpc) (CTemplate [7] false) = Panic STemplateApp
+                            /\ run no_tmpl_app m_rpc true (fuel_bound m_rpc) (CTemplate [] true) = Panic STemplateApp.
+Proof. split; vm_compute; reflexivity. Qed.
+Theorem rig_app_refuted : run no_rig_nilapp m_rpc true (fuel_bound m_rpc) (CTestRig [1; 7]) = Panic SRigApp.
+Proof. vm_compute. reflexivity. Qed.
